@@ -12,7 +12,7 @@
     `occurs` (its reflexive-transitive closure), `head_copy` / `head_drop` (the intrinsic
     rules of the property text), hugr-py's `type_bound` on the translated type. *)
 From Coq Require Import List Bool String NArith Arith.
-From V.C14 Require Import Base GenTyTable Model Proofs.
+From V.C14 Require Import Base GenTyTable Model Proofs Proofs2.
 Import ListNotations.
 Open Scope string_scope.
 Open Scope list_scope.
@@ -117,6 +117,25 @@ Theorem affine_requires_drop_refuted : exists t h, wfb t = true /\ to_hugr t = S
   affine t = true /\ requires_drop h = false.
 Proof. exists (TStruct 0 [ATy (arrayT (TNum KInt) 2)] [TNum KInt]). eexists. vm_compute. repeat split. Qed.
 Print Assumptions affine_requires_drop_refuted.
+
+(* The side condition in syntactic form: every type argument of every struct type occurs in
+   one of the struct's instantiated fields (outside function types).  `nophantomb` implies
+   `witnessedb`, so both theorems hold for all phantom-free types. *)
+Theorem bound_and_drop_nophantom : forall t, wfb t = true -> nophantomb t = true ->
+  exists h, to_hugr t = Some h /\ (type_bound h = Copyable <-> copyable t = true) /\
+    (affine t = true -> requires_drop h = true) /\ (requires_drop h = true -> copyable t = false).
+Proof.
+  intros t W N. pose proof (nophantom_witnessed t W N) as Wi.
+  destruct (bound_matches t W Wi) as [h [E B]]. exists h. split; [exact E|]. split; [exact B|].
+  exact (affine_requires_drop t h W Wi E).
+Qed.
+Print Assumptions bound_and_drop_nophantom.
+
+Example nophantom_instance :
+  let g := TStruct 2 [ATy (arrayT boolT 1); AConst 3] [TTuple [arrayT boolT 1; TNum KInt]; optionT qubit] in
+  wfb g = true /\ nophantomb g = true /\ linear g = true /\
+  nophantomb (TStruct 0 [ATy qubit] [TNum KInt]) = false.
+Proof. vm_compute. repeat split. Qed.
 
 (* The drop-insertion pass: for every out-port j of every node i of the input graph, the
    port keeps its kind; it receives exactly one drop node (at the port's type) when it is a
